@@ -84,4 +84,7 @@ class Obligation:
 
     @property
     def coarse_id(self):
-        return f"{self.func}::{self.kind}:{self.clause}"
+        clause = self.clause
+        if self.kind == "raises" and clause.startswith("no-escape:"):
+            clause = "no-escape"       # one clause family: "no exception outside the raises clause escapes"
+        return f"{self.func}::{self.kind}:{clause}"
